@@ -16,7 +16,11 @@ class C18(core.Prop):
     assumptions = ["state read from the live objects with -fno-access-control; 'enabled' means sharing_penalty_>0"]
 
     def strategy(self, tier):
-        return lmm.histories(solvers=("maxmin", "maxmin", "fairbottleneck"), selective=None, limits="many", nonlinear=False)
+        from hypothesis import strategies as st
+        general = lmm.histories(solvers=("maxmin", "maxmin", "fairbottleneck"), selective=None, limits="many", nonlinear=False)
+        tight = lmm.histories(solvers=("maxmin", "maxmin", "fairbottleneck"), selective=None, limits="tight", nonlinear=False,
+                              policies="shared")
+        return st.one_of(general, tight)
 
     def check(self, case):
         oc = core.Outcome()
